@@ -48,6 +48,8 @@ func parseKeyModes(s string) []int {
 		return []int{0, 1}
 	case "rich2":
 		return []int{2}
+	case "rich3":
+		return []int{3}
 	}
 	return []int{0}
 }
